@@ -895,7 +895,8 @@ def implied_tags(mod, impl_ctx, name, cur):
             # the integer encoder also writes every BufferSize (C10 templates, C16 UUID buffers), the EISA
             # id (C16) and the elements / sizes the alternative construction paths compare (C15)
             add |= {'C10', 'C15', 'C16'}
-        if impl_ctx.startswith('AmlSink for '):
+        if impl_ctx.startswith('AmlSink for ') or 'PackageBuilder' in impl_ctx:
+            # a sink, and the builder that is one: what was pushed in is what comes out
             add |= {'C06', 'C08', 'C14', 'C15'}
         elif is_ser:
             add |= {'C06', 'C14'}
@@ -1086,7 +1087,10 @@ class Splicer:
                 # change under test (e.g. a helper inlined into its only caller): its obligations go with
                 # it, its former callers must now prove their own contracts without it.  A contract that
                 # never matched anything (not in the baseline either) is a lost anchor.
-                if any(bk.startswith('%s::%s#' % (mod, k)) for bk in self.baseline):
+                # (Only inherent and free functions: a trait method that is no longer written out may now
+                # be supplied by a derive, a blanket impl or the trait's default -- that is a replacement,
+                # not a removal, and stays a lost anchor.)
+                if ' for ' not in k and any(bk.startswith('%s::%s#' % (mod, k)) for bk in self.baseline):
                     self.removed.append('%s::%s' % (mod, k))
                     continue
                 raise SpliceError('lost anchor: contract for `%s` in %s.vspec matches no function in /repo/src/%s.rs' % (k, mod, mod))
